@@ -1,5 +1,5 @@
 (* Lemmas about Model/Prune.v: the walk, LocalStore.Prune, LocalStore.Verify, S3Store.Prune. *)
-From Coq Require Import List NArith Arith Bool Lia.
+From Coq Require Import List NArith Arith Bool Lia Permutation.
 From DS Require Import Gen.Constants Base.Bytes Base.Hash Base.HexId Base.FS Model.LocalStore Model.Prune
      Proofs.LocalStoreProofs.
 Import ListNotations.
@@ -127,6 +127,23 @@ Section WalkFacts.
         destruct (walk fs_of on_file f (join_str pstr n) (p ++ [n]) (node_is_dir c) x) as [x1 [e1|]] eqn:W1.
         * inversion W; subst. eapply IH; eauto.
         * eapply IHn; [eapply IH; eauto|exact W].
+  Qed.
+
+  (* an error of the walk is the budget, an lstat/readdir errno, or an error of the callback *)
+  Lemma walk_err_cases (P : walk_err -> Prop) :
+    P WeFuel -> (forall e, P (WeErrno e)) ->
+    (forall pstr p x x' e, on_file pstr p x = (x', Some e) -> P e) ->
+    forall fuel pstr p isdir x x' e, walk fs_of on_file fuel pstr p isdir x = (x', Some e) -> P e.
+  Proof.
+    intros PF PE PO. induction fuel as [|f IH]; intros pstr p isdir x x' e W; cbn [walk] in W.
+    - inversion W; subst. exact PF.
+    - destruct isdir; [|eapply PO; eauto].
+      destruct (readdir p (fs_of x)) as [names|er]; [|inversion W; subst; apply PE].
+      revert x W. induction names as [|n r IHn]; intros x W; cbn [walk_loop] in W; [discriminate|].
+      destruct (lookup (p ++ [n]) (fs_of x)) as [c|]; [|inversion W; subst; apply PE].
+      destruct (walk fs_of on_file f (join_str pstr n) (p ++ [n]) (node_is_dir c) x) as [x1 [e1|]] eqn:W1.
+      + inversion W; subst. eapply IH; eauto.
+      + eapply IHn; eauto.
   Qed.
 
   (* a preorder on callback states along which the file system only loses entries *)
@@ -348,6 +365,26 @@ Section PruneProofs.
       destruct (remove_chunk st i s); intros E; inversion E; discriminate.
   Qed.
 
+  Lemma prune_file_noblock pstr p s s' e : prune_file_gen tmp_rule st keep pstr p s = (s', e) -> e <> Some WeBlocked.
+  Proof.
+    unfold prune_file_gen. destruct (tmp_rule && has_prefix (last p []) tmpChunkPrefix_bytes).
+    - intros E; inversion E; discriminate.
+    - destruct (chunk_file_id (st_unc st) pstr (last p [])); [|intros E; inversion E; discriminate].
+      destruct (keep i); [intros E; inversion E; discriminate|].
+      destruct (remove_chunk st i s); intros E; inversion E; discriminate.
+  Qed.
+
+  (* Prune never waits for a second connection, whatever the pool size *)
+  Lemma prune_never_blocks fuel bstr s0 : snd (prune_gen tmp_rule fuel st bstr keep s0) <> Some WeBlocked.
+  Proof.
+    unfold prune_gen, walk_root. destruct (lookup (st_base st) s0) as [c|]; [|discriminate].
+    destruct (walk (fun s => s) (prune_file_gen tmp_rule st keep) fuel bstr (st_base st) (node_is_dir c) s0) as [s' e] eqn:W.
+    cbn [snd]. destruct e as [e|]; [|discriminate].
+    refine (walk_err_cases (fun s => s) (prune_file_gen tmp_rule st keep) (fun e => Some e <> Some WeBlocked) _ _ _
+              fuel bstr _ _ s0 s' e W); try discriminate.
+    intros ps q x x' e0 O. eapply prune_file_noblock; eauto.
+  Qed.
+
   (* a recursion budget above the depth of the store never runs out *)
   Lemma prune_fuel_suffices fuel bstr s0 :
     (forall q en, stat (st_base st ++ q) s0 = Some en -> length q < fuel) ->
@@ -560,6 +597,31 @@ Section VerifyProofs.
                 symmetry. apply path_eqb_neq. intros X. apply N. now apply canon_inj; auto.
   Qed.
 
+  (* The order in which the workers get to the ids does not matter when every fed id's canonical path is
+     a file (alias-free store): same reported set, same resulting tree. *)
+  Lemma verify_all_perm repair ids ids' s s1 m1 s2 m2 :
+    Permutation ids ids' -> Forall wf_id ids ->
+    (forall i, In i ids -> exists en, stat (canon st i) s = Some en /\ is_dir (Some en) = false) ->
+    verify_all st repair ids s = (s1, m1) -> verify_all st repair ids' s = (s2, m2) ->
+    (forall j, In j (reported m1) <-> In j (reported m2)) /\ (forall q, stat q s1 = stat q s2).
+  Proof.
+    intros P W Fl V1 V2.
+    assert (W' : Forall wf_id ids') by (eapply Permutation_Forall; eauto).
+    destruct (verify_all_spec _ _ _ _ _ W V1) as (A1 & A2 & _ & A4).
+    destruct (verify_all_spec _ _ _ _ _ W' V2) as (B1 & B2 & _ & B4).
+    split.
+    - intros j. rewrite A1, B1. split; intros [I V]; (split; [|exact V]).
+      + eapply Permutation_in; eauto.
+      + eapply Permutation_in; [apply Permutation_sym; exact P|exact I].
+    - intros q. destruct (A2 q) as [E1|(N1 & R & i & Ii & Vi & Qi)]; destruct (B2 q) as [E2|(N2 & R' & i' & Ii' & Vi' & Qi')].
+      + congruence.
+      + rewrite N2. subst q. assert (Ii0 : In i' ids) by (eapply Permutation_in; [apply Permutation_sym; exact P|exact Ii']).
+        apply A4; auto.
+      + rewrite N1. subst q. symmetry. assert (Ii0 : In i ids') by (eapply Permutation_in; eauto).
+        apply B4; auto.
+      + congruence.
+  Qed.
+
   (* the id-collecting walk *)
   Definition vle (x x' : node * list id) : Prop := fst x' = fst x /\ incl (snd x) (snd x').
 
@@ -625,21 +687,35 @@ Section VerifyProofs.
     (forall q, stat q s' = stat q s0 \/
                (stat q s' = None /\ repair = true /\ exists i, In i (reported msgs) /\ q = canon st i)) /\
     (repair = true -> forall i en, In i (reported msgs) -> stat (canon st i) s0 = Some en ->
-                      is_dir (Some en) = false -> stat (canon st i) s' = None).
+                      is_dir (Some en) = false -> stat (canon st i) s' = None) /\
+    (st_skip st = false -> forall i m b, wf_id i -> stat (canon st i) s0 = Some (EFile m b) ->
+                      ~ In i (reported msgs) -> exists d, storage_data zdecomp (st_unc st) b = Some d /\ H d = i).
   Proof.
     intros D. unfold verify. destruct (verify_ids fuel st bstr s0) as [ids e] eqn:VI.
     destruct (Prune.verify_all H zdecomp st repair ids s0) as [s1 m1] eqn:VA.
     intros E. inversion E; subst. clear E.
     destruct (verify_ids_spec _ _ _ _ _ VI) as [Wf Cov]. specialize (Cov eq_refl D).
     destruct (verify_all_spec _ _ _ _ _ Wf VA) as (A1 & A2 & A3 & A4).
-    split; [|split; [|split; [|split]]].
-    - intros i I. apply A1 in I. destruct I as [I V]. split; [|exact V].
-      rewrite Forall_forall in Wf. now apply Wf.
-    - intros i en Wi S Nd V. apply A1. split; [|exact V].
-      unfold canon, name_from_id in S. cbn [snd] in S. rewrite <- app_assoc in S.
+    assert (Fed : forall i en, wf_id i -> stat (canon st i) s0 = Some en -> is_dir (Some en) = false -> In i ids).
+    { intros i en Wi S Nd. unfold canon, name_from_id in S. cbn [snd] in S. rewrite <- app_assoc in S.
       eapply Cov; eauto.
       rewrite app_assoc. change ((st_base st ++ [firstn 4 (hex_id i)]) ++ [hex_id i ++ ext_of (st_unc st)]) with (canon st i).
-      rewrite last_canon. now apply base_file_id_canonical.
+      rewrite last_canon. now apply base_file_id_canonical. }
+    split; [|split; [|split; [|split; [|split]]]].
+    6:{ intros K i m b Wi S Nr.
+        assert (I : In i ids) by (eapply Fed; eauto).
+        assert (G : get_chunk st i s0 = new_chunk_from_storage H zdecomp i b (st_unc st) false).
+        { unfold LocalStore.get_chunk, read_file. fold (canon st i). rewrite probe_char, S, K. reflexivity. }
+        destruct (new_chunk_from_storage H zdecomp i b (st_unc st) false) as [b'| |sum] eqn:N.
+        - assert (b' = b). { unfold new_chunk_from_storage in N. destruct (storage_data zdecomp (st_unc st) b); [|discriminate].
+            destruct (N.eqb (H b0) i); inversion N; reflexivity. }
+          subst b'. eapply new_chunk_ok_valid; eauto.
+        - unfold new_chunk_from_storage in N. destruct (storage_data zdecomp (st_unc st) b); [|discriminate].
+          destruct (N.eqb (H b0) i); discriminate.
+        - exfalso. apply Nr. apply A1. split; [exact I|]. exists sum. exact G. }
+    - intros i I. apply A1 in I. destruct I as [I V]. split; [|exact V].
+      rewrite Forall_forall in Wf. now apply Wf.
+    - intros i en Wi S Nd V. apply A1. split; [|exact V]. eapply Fed; eauto.
     - exact A3.
     - intros q. destruct (A2 q) as [Eq|(Nn & Rp & i & Ii & Vi & Qi)]; [now left|].
       right. split; [exact Nn|]. split; [exact Rp|]. exists i. split; [|exact Qi]. apply A1. now split.
@@ -647,10 +723,17 @@ Section VerifyProofs.
   Qed.
 End VerifyProofs.
 
-Lemma zero_id_accepts_undecodable (H : bytes -> id) (zdecomp : bytes -> option bytes) (b : bytes) unc :
+(* before 27b0229 *)
+Lemma zero_id_accepts_undecodable_prefix (H : bytes -> id) (zdecomp : bytes -> option bytes) (b : bytes) unc :
   storage_data zdecomp unc b = None ->
-  new_chunk_from_storage H zdecomp zero_id b unc false = GetOk b.
-Proof. intros E. unfold new_chunk_from_storage, storage_sum. rewrite E. reflexivity. Qed.
+  new_chunk_from_storage_prefix H zdecomp zero_id b unc false = GetOk b.
+Proof. intros E. unfold new_chunk_from_storage_prefix, storage_sum. rewrite E. reflexivity. Qed.
+
+(* after it: an object whose data cannot be produced is invalid for every id *)
+Lemma undecodable_always_invalid (H : bytes -> id) (zdecomp : bytes -> option bytes) (b : bytes) unc i :
+  storage_data zdecomp unc b = None ->
+  new_chunk_from_storage H zdecomp i b unc false = GetInvalid zero_id.
+Proof. intros E. unfold new_chunk_from_storage. rewrite E. reflexivity. Qed.
 
 (* ---------- S3Store.Prune ---------- *)
 
